@@ -84,7 +84,15 @@ class EdgeOdometry(BaseEdge):
             The error for the edge
 
         """
-        return (self.estimate - (self.vertices[1].pose - self.vertices[0].pose)).to_compact()
+        err_pose = self.estimate - (self.vertices[1].pose - self.vertices[0].pose)
+        err = err_pose.to_compact()
+
+        # `q` and `-q` are the same rotation, so use the error quaternion whose scalar part is non-negative; otherwise
+        # chi^2 would depend on the sign of the quaternions when the information matrix has translation-rotation terms
+        if isinstance(err_pose, PoseSE3) and err_pose[6] < 0.0:
+            err[3:] = -err[3:]
+
+        return err
 
     def calc_jacobians(self):
         r"""Calculate the Jacobian of the edge's error with respect to each constrained pose.
@@ -101,9 +109,17 @@ class EdgeOdometry(BaseEdge):
 
         """
         # fmt: off
-        return [np.dot(np.dot(self.estimate.jacobian_self_ominus_other_wrt_other_compact(self.vertices[1].pose - self.vertices[0].pose), self.vertices[1].pose.jacobian_self_ominus_other_wrt_other(self.vertices[0].pose)), self.vertices[0].pose.jacobian_boxplus()),
-                np.dot(np.dot(self.estimate.jacobian_self_ominus_other_wrt_other_compact(self.vertices[1].pose - self.vertices[0].pose), self.vertices[1].pose.jacobian_self_ominus_other_wrt_self(self.vertices[0].pose)), self.vertices[1].pose.jacobian_boxplus())]
+        jacobians = [np.dot(np.dot(self.estimate.jacobian_self_ominus_other_wrt_other_compact(self.vertices[1].pose - self.vertices[0].pose), self.vertices[1].pose.jacobian_self_ominus_other_wrt_other(self.vertices[0].pose)), self.vertices[0].pose.jacobian_boxplus()),
+                     np.dot(np.dot(self.estimate.jacobian_self_ominus_other_wrt_other_compact(self.vertices[1].pose - self.vertices[0].pose), self.vertices[1].pose.jacobian_self_ominus_other_wrt_self(self.vertices[0].pose)), self.vertices[1].pose.jacobian_boxplus())]
         # fmt: on
+
+        # Match the sign convention of the rotational error (see `calc_error`)
+        err_pose = self.estimate - (self.vertices[1].pose - self.vertices[0].pose)
+        if isinstance(err_pose, PoseSE3) and err_pose[6] < 0.0:
+            for jacobian in jacobians:
+                jacobian[3:] = -jacobian[3:]
+
+        return jacobians
 
     def to_g2o(self):
         """Export the edge to the .g2o format.
